@@ -40,7 +40,8 @@ Step(ev) ==
       [] ev.e = "PeerClose" -> o' = [o EXCEPT !.peerClosed = TRUE] /\ UNCHANGED <<viol, blk>>
       [] ev.e = "PeerDrain" ->
             /\ o' = [o EXCEPT !.drained = @ + ev.n]
-            /\ Judge(ev, IF ev.m = 0 THEN {"C04.peer_received_wrong_bytes"} ELSE {}) /\ UNCHANGED blk
+            \* (the guarantee covers a connection up to its first reported write error)
+            /\ Judge(ev, IF ev.m = 0 /\ ~o.writeFailed THEN {"C04.peer_received_wrong_bytes"} ELSE {}) /\ UNCHANGED blk
       [] ev.e = "TimerFire" ->
             /\ o' = [o EXCEPT !.rtFired = IF ev.k = "read" THEN @ + 1 ELSE @, !.wtFired = IF ev.k = "write" THEN @ + 1 ELSE @]
             /\ UNCHANGED <<viol, blk>>
